@@ -11,11 +11,12 @@ OCLASS = "".join(a for a in T.AA if a not in XCLASS)
 
 def vec(seq, omega_only=False):
     from localcider.sequenceParameters import SequenceParameters as SP
-    o = core.sp(seq)
-    if omega_only:
-        return {"Omega": o.get_Omega()}
-    return {"kappa": o.get_kappa(), "delta": o.get_delta(), "deltaMax": o.get_deltaMax(), "SCD": o.get_SCD(),
-            "Omega": o.get_Omega()}
+    with core.istate(seq):
+        o = core.sp(seq)
+        if omega_only:
+            return {"Omega": o.get_Omega()}
+        return {"kappa": o.get_kappa(), "delta": o.get_delta(), "deltaMax": o.get_deltaMax(), "SCD": o.get_SCD(),
+                "Omega": o.get_Omega()}
 
 
 def swap_charge(seq):
